@@ -8,6 +8,7 @@ transcribed from the statement and docs/writing-an-icd.rst from which the case w
 """
 import codecs
 import itertools
+import json
 
 from mc import engine, harness
 from mc.core import Part
@@ -189,6 +190,8 @@ def cases_character_sets():
             cases.append({"group": "character-set", "format": fmt, "props": item + [["Decimal separator", value]], "expect": "refuse", "what": "decimal separator (not a single character)"})
             if value != "":
                 cases.append({"group": "character-set", "format": fmt, "props": item + [["Decimal separator", "."], ["Thousands separator", value]], "expect": "refuse" if value not in (",",) else "accept", "what": "thousands separator (not a single character)"})
+            else:  # an explicitly empty thousands separator is not documented: either verdict, but always the same one
+                cases.append({"group": "character-set", "format": fmt, "props": item + [["Decimal separator", "."], ["Thousands separator", ""]], "expect": "either", "what": "thousands separator (explicitly empty)"})
     for value in ("", "minimal ", "ALL", "All", "Minimal", "none", "minimalall", "m", "al"):
         expect = "accept" if value.lower() in ("all", "minimal") else "refuse"
         cases.append({"group": "character-set", "format": "delimited", "props": [["Quoting", value]], "expect": expect, "what": "quoting"})
@@ -282,14 +285,31 @@ def all_cases(tier="quick"):
     return (cases_applicability() + cases_spellings(tier) + cases_character_sets() + cases_line_delimiters_and_encodings() + cases_numbers() + cases_pairs() + cases_defaults())
 
 
+def verdict_of(case):
+    """accept / refuse / raised-... for one case, without judging it."""
+    m = harness.modules()
+    fmt = case["format"]
+    rows = [["D", "Format", fmt]] + [["D", n, v] for n, v in case["props"]] + [field_row(fmt)]
+    try:
+        harness.make_cid(rows)
+        return "accept"
+    except m["errors"].InterfaceError:
+        return "refuse"
+    except Exception as error:
+        return "raised-" + type(error).__name__
+
+
 def work(group):
     part = Part()
+    first_verdicts = {}
     for case in group:
-        if case["format"].lower() == "csv":
-            case = dict(case)
-        judge_case = dict(case)
-        fmt = case["format"].lower()
-        judge(dict(judge_case, format=case["format"]) if fmt in FORMATS or True else judge_case, part)
+        judge(dict(case), part)
+        # a case that occurs several times in one work item (the one-process pass): its verdict does not depend on what was loaded in between
+        key = json.dumps([case["format"], case["props"]])
+        verdict = verdict_of(case)
+        part.transitions += 1
+        if first_verdicts.setdefault(key, verdict) != verdict:
+            part.fail("%s|%s|verdict-depends-on-what-was-loaded-before:%s-then-%s:%s" % (case["group"], case["format"], first_verdicts[key], verdict, case.get("what", "")), case, first_verdicts[key], verdict)
     part.sample(group[0], limit=1)
     return part
 
@@ -310,3 +330,6 @@ def run(ctx):
     ctx.assumptions = ["grey zones (either outcome): backslash as escape character, blank as thousands separator, 'none' as line delimiter for fixed data, CR/LF or the default escape character as item delimiter",
                        "known encodings = those Python's codecs.lookup resolves in the harness process"]
     ctx.pmap(MOD, "work", engine.chunks(cases, 60), label="C11")
+    # in one single process: first every case that need not be refused (those that must be accepted and empty values first), then all cases in reverse order, then all in order: whatever a refused or accepted value leaves
+    # behind in module-level tables meets every other case there
+    ctx.pmap(MOD, "work", [sorted((c for c in cases if c["expect"] != "refuse"), key=lambda c: 0 if c["expect"] == "accept" or any(v == "" for _, v in c["props"]) else 1) + list(reversed(cases)) + cases], label="C11 one process")
